@@ -144,6 +144,31 @@ def lru_assembly(ctx, rr):
     rr.ob(ctx.where(npi), 'node_parents_iter yields one node per existing parent link, none for a top-level node (%d rows)' % len(rows), ok=not bad)
     for r in bad:
         rr.fail(ctx.finding('R-LRU-ASSEMBLY', npi, npi.node, 'node_parents_iter does not yield exactly the chain of parents', detail={'row': r.show()[:300]}, stmt='parents chain'))
+    # the climb ends at a node without parent and nowhere else: every yield-free exit of the loop is decided by has_parent() alone
+    from ..dataflow import test_leaves as _leaves
+    for lp_ in P.own(npi, (ast.While, ast.For)):
+        extra = []
+        if isinstance(lp_, ast.While):
+            extra = [x for x in _leaves(lp_.test) if not (isinstance(x, ast.Call) and isinstance(x.func, ast.Attribute) and x.func.attr == 'has_parent')
+                     and not (isinstance(x, ast.Constant) and x.value is True)]
+        exits = []
+        for st_ in lp_.body:
+            for x in ast.walk(st_):
+                if isinstance(x, (ast.Break, ast.Return)) and P.owner_of(npi.node, x) is npi.node:
+                    cur_ = P.parent.get(id(x))
+                    tests_ = []
+                    while cur_ is not None and cur_ is not lp_:
+                        if isinstance(cur_, ast.If):
+                            tests_ += _leaves(cur_.test)
+                        cur_ = P.parent.get(id(cur_))
+                    if any(not (isinstance(t_, ast.Call) and isinstance(t_.func, ast.Attribute) and t_.func.attr == 'has_parent') for t_ in tests_) or not tests_:
+                        exits.append(x)
+        okc = not extra and not exits
+        rr.ob(ctx.where(npi, lp_), 'the climb of node_parents_iter stops only where has_parent() is false', ok=okc)
+        if not okc:
+            what = ast.unparse(extra[0])[:40] if extra else ast.unparse(P.parent.get(id(exits[0])).test)[:40] if isinstance(P.parent.get(id(exits[0])), ast.If) else 'an unconditional exit'
+            rr.fail(ctx.finding('R-LRU-ASSEMBLY', npi, extra[0] if extra else exits[0], 'node_parents_iter can stop climbing because of `%s` although the node still has a parent: the LRU '
+                                'rebuilt bottom-up is cut short and the webentity above is not found for deep nodes' % what, stmt='parents chain bound'))
     # upward webentity resolution starts at the node itself
     ww = P.method('LRUTrie', 'windup_lru_for_webentity')
     rows = tables(ctx, ww, iters=1, keep=lambda nm, c: nm in ('has_webentity', 'webentity', 'node_parents_iter', 'warn'))
@@ -225,10 +250,46 @@ def lru_assembly(ctx, rr):
         rr.ob(ctx.where(h), 'lru_iter yields stems including their closing separator', ok=ok)
         if not ok:
             rr.fail(ctx.finding('R-LRU-ASSEMBLY', h, h.node, 'lru_iter no longer yields each stem with its closing separator', stmt='lru_iter'))
-    ok = any(isinstance(x, ast.Subscript) and isinstance(x.slice, ast.Slice) and x.slice.lower is None and ast.unparse(x.slice.upper) == '-1' for x in ast.walk(d.node))
-    rr.ob(ctx.where(d), 'lru_dirname drops exactly the last stem', ok=ok)
+    # lru_dirname: the stems of the LRU (as lru_iter cuts them) without the last one, joined by nothing
+    from ..dataflow import resolve_locals as _rl
+    dp = d.call_params[0] if d.call_params else None
+
+    from ..dataflow import single_defs as _sd
+    sdd = _sd(P, d)
+
+    def stem_list(e):
+        if isinstance(e, ast.Name) and e.id in sdd:
+            e = sdd[e.id]
+        if isinstance(e, ast.Call) and isinstance(e.func, ast.Name) and e.func.id in ('list', 'tuple') and len(e.args) == 1:
+            e = e.args[0]
+            if isinstance(e, ast.Call) and h in P.targets(e):
+                return True
+        if isinstance(e, ast.ListComp) and len(e.generators) == 1 and not e.generators[0].ifs and isinstance(e.generators[0].iter, ast.Call) and h in P.targets(e.generators[0].iter) \
+                and ast.unparse(e.elt) == ast.unparse(e.generators[0].target):
+            return True
+        return False
+    slices = [x for x in ast.walk(d.node) if isinstance(x, ast.Subscript) and isinstance(x.slice, ast.Slice)]
+    good = [x for x in slices if stem_list(x.value) and x.slice.lower is None and x.slice.upper is not None and ast.unparse(x.slice.upper) == '-1' and x.slice.step is None]
+    other = [x for x in slices if stem_list(x.value) and x not in good]
+    raw = [x for x in ast.walk(d.node) if (isinstance(x, ast.Subscript) and isinstance(x.value, ast.Name) and x.value.id == dp and isinstance(x.slice, ast.Slice))
+           or (isinstance(x, ast.Call) and isinstance(x.func, ast.Attribute) and x.func.attr in ('rsplit', 'rpartition', 'rstrip', 'split', 'partition', 'rfind', 'rindex')
+               and any(isinstance(y, ast.Name) and y.id == dp for y in ast.walk(x.func.value)))]
+    if good and not other and not raw:
+        ok = True
+    elif other or raw:
+        ok = False
+    else:
+        ok = any(isinstance(x, ast.Subscript) and isinstance(x.slice, ast.Slice) and x.slice.lower is None and x.slice.upper is not None and ast.unparse(x.slice.upper) == '-1'
+                 for x in ast.walk(d.node))
+        if ok:
+            raise AnalysisError('R-LRU-ASSEMBLY: helpers.lru_dirname slices something that is not the list of stems given by lru_iter')
+    rr.ob(ctx.where(d), 'lru_dirname joins the stems lru_iter cuts, without the last one', ok=ok)
     if not ok:
-        rr.fail(ctx.finding('R-LRU-ASSEMBLY', d, d.node, 'lru_dirname no longer drops exactly the last stem', stmt='lru_dirname'))
+        why = 'lru_dirname no longer drops exactly the last stem'
+        if raw and not good:
+            why = ('lru_dirname cuts the raw bytes (`%s`) instead of dropping the last of the stems lru_iter gives: for an LRU of one stem (a scheme-level prefix) the result is not the '
+                   'empty LRU, so every walk started from such a prefix rebuilds its LRUs with the first stem doubled' % ast.unparse(raw[0])[:40])
+        rr.fail(ctx.finding('R-LRU-ASSEMBLY', d, d.node, why, stmt='lru_dirname'))
 
 
 # ------------------------------------------------------------------------------------------------ R-LINK-WALK
@@ -311,6 +372,21 @@ def link_walk(ctx, rr):
     rr.ob(ctx.where(li), 'links_iter tests and walks the same link head', ok=ok)
     if not ok:
         rr.fail(ctx.finding('R-LINK-WALK', li, li.node, 'links_iter tests one head and walks another: %s' % sorted(heads), stmt='links_iter head'))
+    # ... and every neighbour the walk hands out is reported, whatever the direction switch says
+    from .generic_rules import round_must_pass as _rmp
+    nli = 0
+    for lp_ in P.own(li, ast.For):
+        if not (isinstance(lp_.iter, ast.Call) and any(t.cls == 'LinkStore' and t.is_gen for t in P.targets(lp_.iter))):
+            continue
+        nli += 1
+        badn = _rmp(ctx, li, lp_, lambda root: any(isinstance(y, ast.Yield) for y in ast.walk(root)))
+        rr.ob(ctx.where(li, lp_), 'links_iter yields one pair for every neighbour of the list, in either direction', ok=badn is None)
+        if badn is not None:
+            rr.fail(ctx.finding('R-LINK-WALK', li, badn.ast if isinstance(badn.ast, ast.AST) else lp_, 'links_iter can finish a round of its neighbour loop without yielding the pair: some links '
+                                '(self-links, or links in one direction only) are missing from the enumeration, which is then no longer the transpose of the other direction',
+                                stmt='links_iter round without yield'))
+    if not nli:
+        raise AnalysisError('R-LINK-WALK: neighbour loop of Traph.links_iter not found')
 
 
 # ------------------------------------------------------------------------------------------------ R-PREFIX-EDIT
@@ -377,6 +453,27 @@ def prefix_edit(ctx, rr):
     rr.ob(ctx.where(dl), 'deletion detaches every listed prefix', ok=ok)
     if not ok:
         rr.fail(ctx.finding('R-PREFIX-EDIT', dl, dl.node, 'delete_webentity does not simply detach the prefixes', stmt='delete detach'))
+    # ... every listed prefix: no round of the detach loop ends without unset_webentity() and write()
+    from .generic_rules import round_must_pass, _inside as _ins
+    for c in un:
+        lp_ = P.parent.get(id(c))
+        while lp_ is not None and not isinstance(lp_, (ast.For, ast.While)):
+            lp_ = P.parent.get(id(lp_))
+        if lp_ is None:
+            continue
+        recv_ = ast.unparse(c.func.value)
+        from .generic_rules import absent_branch as _absent
+        exc_ = (lambda lab: _absent(lab, recv_)) if recv_.isidentifier() else None
+        b1 = round_must_pass(ctx, dl, lp_, lambda root: any(x is c for x in ast.walk(root)), excuse=exc_)
+        b2 = round_must_pass(ctx, dl, lp_, lambda root: any(isinstance(x, ast.Call) and isinstance(x.func, ast.Attribute) and x.func.attr == 'write'
+                                                            and ast.unparse(x.func.value) == recv_ for x in ast.walk(root)), excuse=exc_)
+        okr = b1 is None and b2 is None
+        rr.ob(ctx.where(dl, lp_), 'every round of the detach loop unsets and writes its prefix node', ok=okr)
+        if not okr:
+            bad_ = b1 or b2
+            rr.fail(ctx.finding('R-PREFIX-EDIT', dl, bad_.ast if isinstance(bad_.ast, ast.AST) else lp_, 'delete_webentity can finish a round of its detach loop without %s: the request '
+                                'reports success but that prefix stays attached, so pages below it keep resolving to the deleted webentity'
+                                % ('unset_webentity()' if b1 is not None else 'writing the node back'), stmt='delete detach round'))
 
     # __add_prefixes: strict mode (use_best_case=False) refuses as soon as one prefix is taken, before any id is allocated
     ap = P.method('Traph', '__add_prefixes')
